@@ -4,6 +4,7 @@ import (
 	"encoding/json"
 	"fmt"
 	"reflect"
+	"regexp"
 	"runtime"
 	"sort"
 	"strings"
@@ -280,6 +281,8 @@ func (x *c08Call) run() (res string) {
 
 var c08RoundNo int
 
+var c08KeyRe = regexp.MustCompile(`"[a-z][a-z0-9_]*":`)
+
 func c08Codecs(c *Ctx, i int, r *gen.Rng) {
 	G := r.Range(2, 16)
 	K := r.Range(1, 8)
@@ -317,6 +320,19 @@ func c08Codecs(c *Ctx, i int, r *gen.Rng) {
 			&c08Call{kind: "Unmarshal", t: t, doc: doc}, &c08Call{kind: "UnmarshalStd", t: t, doc: doc}, &c08Call{kind: "Pretouch", t: t},
 			&c08Call{kind: "Valid", doc: doc}, &c08Call{kind: "Get", doc: doc, path: []interface{}{"f0"}}, &c08Call{kind: "Get", doc: doc, path: []interface{}{0, "s"}},
 			&c08Call{kind: "Unmarshal", t: reflect.TypeOf((*interface{})(nil)).Elem(), doc: doc})
+		// keys that match their fields only case-insensitively (the shared per-type field tables are consulted),
+		// documents that fail in the middle of nested containers and invalid UTF-8 under ValidateString
+		// (pooled scanner state left behind by one call is picked up by another goroutine)
+		docCase := c08KeyRe.ReplaceAllStringFunc(doc, strings.ToUpper)
+		docBad := doc[:r.Intn(len(doc)+1)]
+		docUTF := strings.Replace(doc, `"`, "\"\xff\xfe", 1)
+		iface := reflect.TypeOf((*interface{})(nil)).Elem()
+		calls = append(calls,
+			&c08Call{kind: "Unmarshal", t: t, doc: docCase}, &c08Call{kind: "UnmarshalStd", t: t, doc: docCase},
+			&c08Call{kind: "Valid", doc: docBad}, &c08Call{kind: "Get", doc: docBad, path: []interface{}{"zz", 3}}, &c08Call{kind: "Unmarshal", t: iface, doc: docBad},
+			&c08Call{kind: "Valid", doc: `[[[{"a":[[[{"b":[1,`}, &c08Call{kind: "Get", doc: `{"a":{"b":[[[{"c":}`, path: []interface{}{"zz"}},
+			&c08Call{kind: "UnmarshalStd", t: iface, doc: docUTF}, &c08Call{kind: "UnmarshalStd", t: t, doc: docUTF},
+			&c08Call{kind: "Marshal", t: reflect.TypeOf(""), v: reflect.ValueOf("a\xffb\xc0" + doc)})
 	}
 	results := make([][]string, G)
 	orders := make([][]int, G)
